@@ -27,11 +27,13 @@
 #include <list>
 #include <set>
 #include <atomic>
+#include <vector>
 
 namespace bloc
 {
 
 class Context;
+class Expression;
 
 class Statement {
 
@@ -146,6 +148,13 @@ protected:
   mutable std::atomic<size_t> _level { 0 };
 
   void unparse_next(Context& ctx, FILE * out) const;
+
+  /**
+   * Unparse a list of expressions separated by space (PRINT, PUT). A name
+   * followed by a parenthesis would be read back as a call: the expression
+   * that ends with a name is enclosed when the next one starts with '('.
+   */
+  static void unparse_list(Context& ctx, const std::vector<Expression*>& list, FILE * out);
 
 private:
   void delete_next();
